@@ -218,6 +218,27 @@ pub fn order<T: Hash + Debug>(site: &'static str, items: &mut Vec<T>) {
     });
 }
 
+/// [`order`] for a sequence that consists of consecutive groups of the given `sizes` (the entries of
+/// one map key): the groups are put into canonical order and permuted as planned, while the order
+/// inside each group (which does not depend on hashing) is kept.
+pub fn order_groups<T: Hash + Debug>(site: &'static str, items: &mut Vec<T>, sizes: &[usize]) {
+    if !active() {
+        return;
+    }
+    if sizes.iter().sum::<usize>() != items.len() {
+        // The caller's bookkeeping does not match; fall back to treating every item as a group
+        order(site, items);
+        return;
+    }
+    let mut rest: VecDeque<T> = items.drain(..).collect();
+    let mut groups: Vec<Vec<T>> = sizes
+        .iter()
+        .map(|n| rest.drain(..*n).collect())
+        .collect();
+    order(site, &mut groups);
+    items.extend(groups.into_iter().flatten());
+}
+
 /// [`order`] for a double-ended queue.
 pub fn order_deque<T: Hash + Debug>(site: &'static str, items: &mut VecDeque<T>) {
     if !active() {
